@@ -406,3 +406,46 @@ def check_validators(repo: Repo, rep: Report) -> None:
             rep.fail("ui-legal", "_validators.validate_ui", r, "a UID is accepted without the VR UI conformance test (pydicom's UID.is_valid): with the default configuration (ENFORCE_UID_CONFORMANCE = False) only the length is checked, so a UID with illegal characters or components with leading zeros is put on the wire", mod=vm, node=r)
     if ok:
         rep.ok("ui-legal", "_validators.validate_ui :: every accepting return follows an is_valid test")
+    rep.floor("validate_ui evaluations", check_ui_accepts_legal(repo, rep), 10)
+
+
+class _UIDStr(str):
+    """a str with the one attribute of pydicom's UID the validator looks at"""
+
+
+def check_ui_accepts_legal(repo: Repo, rep: Report, rule: str = "ui-legal") -> int:
+    """validate_ui evaluated (sa/minipy.py) on legal UIDs of 1, 2, 63 and 64 characters - all must be
+    accepted, with and without ENFORCE_UID_CONFORMANCE - and on one of 65 characters, which must be
+    refused: 64 is the legal maximum (PS3.5 9.1); refusing it turns a conformant A-ASSOCIATE or DIMSE
+    message into an 'invalid PDU' abort."""
+    from ..minipy import Interp, Obj, Raised, Unsupported
+
+    vm = repo.mod("_validators")
+    fn = vm.funcs.get("validate_ui")
+    if fn is None:
+        rep.defer("_validators.validate_ui vanished")
+        return 0
+    n = 0
+    consts = {}
+    for k, v in vm.assigns.items():
+        if isinstance(v[0], ast.Constant):
+            consts[k] = v[0].value
+    for enforce in (False, True):
+        for length, want in ((1, True), (2, True), (63, True), (64, True), (65, False)):
+            u = _UIDStr(("1." * 40)[: length - 1] + "1" if length > 1 else "1")
+            u._minipy_attrs = {"is_valid": length <= 64, "is_private": False}
+            g = dict(consts)
+            g["_config"] = Obj("_config", {"ENFORCE_UID_CONFORMANCE": enforce})
+            g["UID"] = lambda x: x
+            it = Interp(g)
+            n += 1
+            try:
+                res = it.call_function(fn, {fn.args.args[0].arg: u})
+            except Unsupported as exc:
+                rep.defer(f"_validators.validate_ui: not evaluable ({exc})")
+                return n
+            except Raised as r:
+                res = (f"raises {r.kind}", "")
+            got = res[0] if isinstance(res, tuple) else res
+            rep.check(got is want, rule, "_validators.validate_ui", f"a legal UID of {length} characters, ENFORCE_UID_CONFORMANCE={enforce} -> {got}", f"validate_ui must {'accept' if want else 'refuse'} a well-formed UID of {length} characters (the legal maximum is 64): {'a conformant PDU / DIMSE message carrying it is treated as invalid and the association aborted' if want else 'an over-long UID is put on the wire'}", mod=vm, node=fn)
+    return n
